@@ -1119,6 +1119,17 @@ func (c *seeCtx) call(v *ssa.Call) *Expr {
 	for _, a := range cc.Args {
 		e.Args = append(e.Args, c.of(a))
 	}
+	// slices.Concat(a, b, …) is append(append(fresh, a...), b...): one spelling for "a followed by b"
+	if callee != nil && len(e.Args) == 1 && e.Args[0].Op == OpStruct && e.Args[0].Name == "list" && len(e.Args[0].Args) >= 2 {
+		if o := CalleeObj(cc); o != nil && o.Pkg() != nil && o.Pkg().Path() == "slices" && o.Name() == "Concat" {
+			parts := e.Args[0].Args
+			acc := parts[0]
+			for _, pt := range parts[1:] {
+				acc = &Expr{Op: OpAppend, Typ: v.Type(), Args: []*Expr{acc, pt}}
+			}
+			return acc
+		}
+	}
 	return e
 }
 
